@@ -189,6 +189,139 @@ def rand_basic(rng, k, nmax):
     return out
 
 
+# ------------------------------------------------ neighbours and boundaries
+CHEAP_DISK = [[5, 1, 1, 1], [1, 1, 0, 0], [4, 1, 1, 0], [3, 1, 1, 1]]
+
+
+def single_param_neighbours(cfg, rng=None, costs_pool=None):
+    """Configurations that differ from cfg in exactly ONE parameter (or swap
+    RAM and disk counts keeping the total).  Process-global caches keyed by
+    too few parameters are exposed by running these next to each other in
+    one process."""
+    out = []
+    c = cfg["cls"]
+
+    def var(**kw):
+        d = dict(cfg)
+        d.update(kw)
+        out.append(d)
+    if "traj" in cfg:
+        var(traj="revolve" if cfg["traj"] == "maximum" else "maximum")
+    if "storage" in cfg:
+        var(storage="RAM" if cfg["storage"] == "DISK" else "DISK")
+    if c == "Multistage":
+        r, d = cfg["ram"], cfg["disk"]
+        if r + d >= 2:
+            for rr in {0, 1, (r + d) // 2, r + d - 1, r + d} - {r}:
+                if 0 <= rr <= r + d:
+                    var(ram=rr, disk=r + d - rr)
+        var(ram=r + 1)
+        var(disk=d + 1)
+    if c == "HRevolve":
+        var(disk=cfg["disk"] + 1)
+        if cfg["disk"] > 0:
+            var(disk=cfg["disk"] - 1)
+    if c in ("Revolve", "DiskRevolve", "PeriodicDiskRevolve", "HRevolve"):
+        var(ram=cfg["ram"] + 1)
+        if cfg["ram"] > 1:
+            var(ram=cfg["ram"] - 1)
+        base = list(cfg.get("costs") or [1, 1, 2, 2])
+        for v in ([base[0] * 3, base[1], base[2], base[3]],
+                  [base[0], base[1] * 3, base[2], base[3]],
+                  [base[0], base[1], base[3], base[2]],
+                  [base[0] * 4, base[1], base[2] * 4, base[3] * 4],
+                  [1, 1, 2, 2]):
+            if v != base:
+                var(costs=v)
+    if c == "Mixed":
+        var(s=cfg["s"] + 1)
+        if cfg["s"] > 1:
+            var(s=cfg["s"] - 1)
+    if c == "TwoLevel":
+        var(period=cfg["period"] + 1)
+        var(bs=cfg["bs"] + 1)
+        if cfg["bs"] > 0:
+            var(bs=cfg["bs"] - 1)
+    if c not in ("SingleMemory", "None"):
+        var(n=cfg["n"] + 1)
+        if cfg["n"] > 2:
+            var(n=cfg["n"] - 1)
+    # drop invalid ones
+    good = []
+    for d in out:
+        if d["cls"] == "Multistage" and d["n"] > 1 and \
+                d["ram"] + d["disk"] < 1:
+            continue
+        good.append(d)
+    return good
+
+
+def boundary_cfgs(th):
+    """More units than steps, degenerate sizes, cheap and free disk, powers
+    of two: the regions where clamping / table-size / cost-regime code is
+    exercised."""
+    out = []
+    vecs = CHEAP_DISK + [[1, 1, 2, 2], [1, 2, 7, 0]]
+    for n in range(1, (10 if th else 7)):
+        for ram in sorted({1, max(1, n - 1), n, n + 2}):
+            for v in vecs:
+                for c in ("Revolve", "DiskRevolve", "PeriodicDiskRevolve"):
+                    out.append({"cls": c, "n": n, "ram": ram,
+                                "costs": list(v)})
+                for d in (0, 1, n + 1):
+                    out.append({"cls": "HRevolve", "n": n, "ram": ram,
+                                "disk": d, "costs": list(v)})
+        for (ram, disk) in ((n, n), (n + 2, 0), (0, n + 2), (n - 1, 1),
+                            (1, n - 1)):
+            if ram < 0 or disk < 0 or (n > 1 and ram + disk < 1):
+                continue
+            for tr in ("maximum", "revolve"):
+                out.append({"cls": "Multistage", "n": n, "ram": ram,
+                            "disk": disk, "traj": tr})
+        for s in (max(n - 1, 1), n, n + 3):
+            for st in ("RAM", "DISK"):
+                out.append({"cls": "Mixed", "n": n, "s": s, "storage": st})
+        for p in (n, n + 1, 2 * n + 1):
+            for bs in (0, n, n + 2):
+                out.append({"cls": "TwoLevel", "n": n, "period": p, "bs": bs,
+                            "storage": "RAM" if (n + p) % 2 else "DISK",
+                            "traj": "maximum"})
+    for n in ((255, 256, 257, 258, 259, 260) + ((511, 512, 513, 1024, 1025)
+                                                 if th else ())):
+        out.append({"cls": "Multistage", "n": n, "ram": 2, "disk": 3,
+                    "traj": "maximum"})
+        out.append({"cls": "Multistage", "n": n, "ram": 1, "disk": 1,
+                    "traj": "revolve"})
+        out.append({"cls": "TwoLevel", "n": n, "period": 64, "bs": 2,
+                    "storage": "DISK", "traj": "maximum"})
+        out.append({"cls": "TwoLevel", "n": n, "period": 256, "bs": 3,
+                    "storage": "RAM", "traj": "revolve"})
+        out.append({"cls": "SingleDiskCopy", "n": n})
+    for n in (257, 259) + ((300, 513) if th else ()):
+        out.append({"cls": "Mixed", "n": n, "s": 3, "storage": "DISK"})
+        out.append({"cls": "Revolve", "n": n, "ram": 3, "costs": [1, 1, 2, 2]})
+        out.append({"cls": "HRevolve", "n": n, "ram": 2, "disk": 2,
+                    "costs": [2, 1, 1, 3]})
+        out.append({"cls": "DiskRevolve", "n": n, "ram": 2,
+                    "costs": [1, 1, 2, 2]})
+        out.append({"cls": "PeriodicDiskRevolve", "n": n, "ram": 2,
+                    "costs": [1, 1, 2, 2]})
+    return out
+
+
+def with_clusters(cfgs, rng, frac):
+    """Follow a fraction of the configurations by their single-parameter
+    neighbours (kept adjacent so that they run in the same worker)."""
+    out = []
+    for c in cfgs:
+        out.append(c)
+        if rng.random() < frac:
+            nb = single_param_neighbours(c, rng)
+            rng.shuffle(nb)
+            out += nb[:4]
+    return out
+
+
 # ---------------------------------------------------- the common stream set
 def stream_cfgs(tier, seed, classes=None, scale=1.0):
     """The shared configuration set of the stream monitors (C01-C04, C08,
@@ -204,12 +337,13 @@ def stream_cfgs(tier, seed, classes=None, scale=1.0):
         out += grid_revolve3(34, 5, COST_VECTORS_THOROUGH[:10])
         out += grid_hrevolve(26, 4, 4, COST_VECTORS_THOROUGH[:10])
         k = int(1500 * scale)
+        out += boundary_cfgs(True)
         out += rand_basic(rng, 40, 3000)
-        out += rand_multistage(rng, k, 6000, 40)
-        out += rand_mixed(rng, k // 3, 900)
-        out += rand_twolevel(rng, k, 3000)
-        out += rand_revolve3(rng, k, 300)
-        out += rand_hrevolve(rng, k, 220)
+        out += with_clusters(rand_multistage(rng, k, 6000, 40), rng, 0.3)
+        out += with_clusters(rand_mixed(rng, k // 3, 900), rng, 0.2)
+        out += with_clusters(rand_twolevel(rng, k, 3000), rng, 0.3)
+        out += with_clusters(rand_revolve3(rng, k, 300), rng, 0.3)
+        out += with_clusters(rand_hrevolve(rng, k, 220), rng, 0.3)
     else:
         out += grid_basic(16)
         out += grid_twolevel(14, 4, 2)
@@ -218,12 +352,13 @@ def stream_cfgs(tier, seed, classes=None, scale=1.0):
         out += grid_revolve3(14, 3, COST_VECTORS_QUICK[:4])
         out += grid_hrevolve(13, 2, 3, COST_VECTORS_QUICK)
         k = int(40 * scale)
+        out += boundary_cfgs(False)
         out += rand_basic(rng, 12, 500)
-        out += rand_multistage(rng, k, 400, 40)
-        out += rand_mixed(rng, k // 2, 250)
-        out += rand_twolevel(rng, k, 500)
-        out += rand_revolve3(rng, k, 110)
-        out += rand_hrevolve(rng, k, 100)
+        out += with_clusters(rand_multistage(rng, k, 400, 40), rng, 0.5)
+        out += with_clusters(rand_mixed(rng, k // 2, 250), rng, 0.3)
+        out += with_clusters(rand_twolevel(rng, k, 500), rng, 0.4)
+        out += with_clusters(rand_revolve3(rng, k, 110), rng, 0.5)
+        out += with_clusters(rand_hrevolve(rng, k, 100), rng, 0.5)
     if classes is not None:
         out = [c for c in out if c["cls"] in classes]
     return out
